@@ -6,7 +6,10 @@ REG = re.compile(r"^(X([0-9]|[12][0-9]|30)|SP|XZR)$")
 IDENT = re.compile(r"^[A-Za-z_.$][\w.$]*$")
 MEM = re.compile(r"^\[\s*(\w+)\s*(,\s*(-?\d+)\s*)?\](!)?$")
 KNOWN = {"ADD", "SUB", "MUL", "SDIV", "MSUB", "B", "BR", "BL", "ADR", "MOV", "MOVZ", "MOVN", "MOVK", "LDR", "LDP",
-         "STR", "STP", "CMP", "BEQ", "BNE", "BLT", "BLE", "BGT", "BGE", "RET"}
+         "STR", "STP", "CMP", "BEQ", "BNE", "BLT", "BLE", "BGT", "BGE", "RET",
+         # forms the backend does not print today but a different instruction selection may (modelled in spec/A64.tla)
+         "CBZ", "CBNZ", "NEG", "MVN", "AND", "ORR", "EOR", "LSL", "LSR", "ASR"}
+ALIASES = {"B.EQ": "BEQ", "B.NE": "BNE", "B.LT": "BLT", "B.LE": "BLE", "B.GT": "BGT", "B.GE": "BGE"}
 
 def operand(s):
     s = s.strip()
@@ -45,7 +48,10 @@ def tokenize(text):
                 raise TokError("line %d: bad label %r" % (ln, line))
             out.append({"op": "label", "l": l})
             continue
-        m = re.match(r"^(\w+)(\s+(.*))?$", code)
+        m = re.match(r"^([\w.]+)(\s+(.*))?$", code)
+        if m and m.group(1) in ALIASES:
+            code = ALIASES[m.group(1)] + code[len(m.group(1)):]
+            m = re.match(r"^([\w.]+)(\s+(.*))?$", code)
         if not m or m.group(1) not in KNOWN:
             raise TokError("line %d: unknown instruction %r" % (ln, line))
         ops = [operand(x) for x in split_ops(m.group(3) or "")] if m.group(3) else []
